@@ -82,6 +82,26 @@ CLAIMS = {
     technique="Lean 4 proof (middleware step functions over the World model, using C04's accounting theorems) + differential correspondence on the real Tower service",
     note=NOTE_COMMON + " Own harness crate /verif/harness-tower (path dependencies on /repo/middleware/tower and /repo/sentinel-core). The tonic interceptor is not exercised (tonic 0.8 is not in the "
          "offline registry). Found and fixed with this check: D11 (exit skipped when the inner service errs; fix: commit a01c729)."),
+ "C19": dict(
+    category="proof",
+    text=("PARTIAL (see note). Model: the writer as a function to the list of file actions it issues (create / append / remove, in program order; day and size roll-over, numbering of the "
+          "next file, retention), the directory as explicit byte files, the 16-byte big-endian index, the line readers (UTF-8, line splitting, MetricItem::from_string from C18) and the searcher "
+          "with its position cache. Proved in Lean for the model: search_range_finds_all (for every well-formed directory - any number of files, any roll-over points, a second continuing in the "
+          "next file - every window and resource, the time-range search of a fresh searcher returns exactly the held items of the window, in write order), on top of unbe64_be64, findEntry_idxOf "
+          "(the index search returns the first group at/after the begin second and the offset of its first line, also with a torn last entry), decodeUtf8_encode (UTF-8 round trip for every "
+          "character), parseLine_lineOf (a printed item is one line and parses back, using C18 line_roundtrip), splitLines_items, rangeLoop_good. Tie: the real DefaultMetricLogWriter / "
+          "DefaultMetricSearcher (feature metric_log) run under strace; the observed system-call stream (creates, appended bytes, removals, per operation) must equal the model's action list, "
+          "searches on the live directory (long-lived and fresh searchers) and on crash states materialised from prefixes of the observed stream (event boundaries, every byte of index entries, "
+          "bytes of lines incl. inside a multi-byte character) must equal the model's answers, and the Spec is evaluated on the implementation's answers: range search = held items of the window; "
+          "line-limited search = the first lines (at least n, whole seconds); retention keeps the newest max-file-count files; after a crash every item with a complete line and index entry comes "
+          "back in order, at most the torn line extra, never an error or panic."),
+    design_ref="DESIGN.md §6 C19",
+    technique="Lean 4 refinement proof (byte-level directory vs abstract groups; search = filter) + differential correspondence on the observed system-call stream incl. crash prefixes + Spec oracle on implementation answers",
+    note=NOTE_COMMON + " Own harness crate /verif/harness-mlog (sentinel-core with feature metric_log). Not yet theorems (decided by correspondence + Spec on traces only): the writer invariant "
+         "(every write history yields a well-formed directory), the line-limited search, the cached position, crash prefixes. strace and gen/C19.py (cutting the log, canonical file names, "
+         "materialising prefixes) are trusted; without strace the stream is the model's and only the directory listing after each write is compared. Resource names without line breaks; "
+         "searches by resource use the stored name ('|' replaced). Found and fixed: D10 (five reader/searcher/writer defects: 2f799c9 01ad495 96e47ad 11e672b 4500944, by reading, before this "
+         "check existed; their witness histories are corpus/C19/d10_history.ops) and D15 (a line torn inside a multi-byte character made every search fail; fix: commit cdbba64, found by this check)."),
  "C14": dict(
     category="proof",
     text=("Theorems over every interleaving of any number of threads (Interleaving ps h: any history keeping each thread's program order; interleaving_perm): conc_eq_open (in-flight counter = "
